@@ -754,6 +754,10 @@ class Harness:
         self._expect(self.dispatcher, 'recv')
         self.sched.resume(self.dispatcher)
         self._expect(self.dispatcher, 'recv')
+        # every callback of the port is handed the same packet object: on the misc and the write channel nobody may alter it
+        # (on the read channel the updater strips the status byte, which no other callback of the port looks at)
+        if chan in (2, 3) and bytes(pk.data) != bytes(data):
+            self.log.append(('mutated', chan, bytes(data), bytes(pk.data)))
 
     def ev_notify(self, i, b):
         self.dev.notify(i, bytes(b))
